@@ -188,6 +188,16 @@ class DealMonitor(Monitor):
             if 'stand_pat_or_discard' in avail:
                 self._probe_discards(ctx, s)
 
+    def on_call_failed(self, ctx, s, name, args, exc):
+        # an available operation died inside the dealing machinery: the
+        # street was not dealt as its definition says
+        site = hist.exc_site(exc)
+        if any(k in site for k in ('dealing', 'deal_', 'burn', 'discard',
+                                   '_consume_cards', '_produce_cards')):
+            ctx.violate(f'{name}{tuple(args)} was available but raised '
+                        f'{type(exc).__name__}: {exc} [{site}] while street '
+                        f'{s.street_index} was being dealt')
+
     def _probe_discards(self, ctx, s):
         """A player discards only cards he holds (as many times as he holds
         them): the draw decision is probed with his own cards, a card twice,
